@@ -976,6 +976,183 @@ theorem flatMapStream_sound :
     subst hk
     exact ⟨hpc, by simpa [fmsPend] using h3⟩)
 
+/-! ## StatePush (items on port 0, the accumulated lattice state on port 1) -/
+
+/-- the items whose merge changed the state, in order -/
+def stChanged (merge : L → α → L × Bool) : L → List α → List α
+  | _, [] => []
+  | st, x :: xs => (if (merge st x).2 then [x] else []) ++ stChanged merge (merge st x).1 xs
+
+def stFinal (merge : L → α → L × Bool) (st : L) (xs : List α) : L := xs.foldl (fun s x => (merge s x).1) st
+
+theorem aux_stChanged_snoc (merge : L → α → L × Bool) (st : L) (xs : List α) (x : α) :
+    stChanged merge st (xs ++ [x]) =
+      stChanged merge st xs ++ (if (merge (stFinal merge st xs) x).2 then [x] else []) := by
+  induction xs generalizing st with
+  | nil => simp [stChanged, stFinal] <;> rfl
+  | cons y ys ih => simp [stChanged, stFinal, ih, List.append_assoc] <;> rfl
+
+/-- two-port bookkeeping: only ports 0 and 1 move -/
+theorem aux_run2 {pd : Nat → PSt} {es : List (PEv β)} {e0 e1 : List (Ev β)} {p0 p1 : PSt}
+    (h0 : port 0 es = e0) (h1 : port 1 es = e1) (h2 : ∀ j, j ≠ 0 → j ≠ 1 → port j es = [])
+    (r0 : (pd 0).run e0 = some p0) (r1 : (pd 1).run e1 = some p1) :
+    ∀ i, (pd i).run (port i es) = some (upd (upd pd 0 p0) 1 p1 i) := by
+  intro i
+  by_cases hi1 : i = 1
+  · subst hi1; rw [h1]; simpa using r1
+  · by_cases hi0 : i = 0
+    · subst hi0; rw [h0, upd_ne _ _ hi1]; simpa using r0
+    · rw [h2 i hi0 hi1, upd_ne _ _ hi1, upd_ne _ _ hi0]; rfl
+
+/-- two-port invariant shape -/
+abbrev Inv2T (κ α β : Type) := PSt → κ → PSt → PSt → List α → List β → List β → Prop
+
+theorem aux_step2 {P2 : Inv2T κ α β} {pd : Nat → PSt} {es : List (PEv β)} {e0 e1 : List (Ev β)} {p0 p1 pu' : PSt}
+    {k1 : κ} {su' : List α} {sd : Nat → List β}
+    (h0 : port 0 es = e0) (h1 : port 1 es = e1) (h2 : ∀ j, j ≠ 0 → j ≠ 1 → port j es = [])
+    (r0 : (pd 0).run e0 = some p0) (r1 : (pd 1).run e1 = some p1)
+    (hp : P2 pu' k1 p0 p1 su' (sd 0 ++ sends e0) (sd 1 ++ sends e1)) :
+    ∃ pd' : Nat → PSt, (∀ i, (pd i).run (port i es) = some (pd' i)) ∧
+      P2 pu' k1 (pd' 0) (pd' 1) su' (sd 0 ++ sends (port 0 es)) (sd 1 ++ sends (port 1 es)) := by
+  refine ⟨upd (upd pd 0 p0) 1 p1, aux_run2 h0 h1 h2 r0 r1, ?_⟩
+  have e1' : upd (upd pd 0 p0) 1 p1 1 = p1 := by simp [upd]
+  have e0' : upd (upd pd 0 p0) 1 p1 0 = p0 := by simp [upd]
+  rw [e0', e1', h0, h1]
+  exact hp
+
+def aux_invState (merge : L → α → L × Bool) (i0 : α → β) (i1 : L → β) (st0 : L) : Inv2T (StateSt L) α β :=
+  fun pu k p0 p1 su s0 s1 =>
+    (p0.started = true → pu.started = true) ∧ (pu.closed = true → p0.closed = true) ∧
+    (pu.ready = true → pu.started = false → p0.ready = true) ∧
+    s0 = (stChanged merge st0 su).map i0 ∧ k.st = stFinal merge st0 su ∧
+    (pu.closed = true → p1.closed = true) ∧
+    (k.sent = false → s1 = [] ∧ p1.started = false) ∧
+    (k.sent = true → s1 = [i1 k.st] ∧ pu.started = true)
+
+theorem aux_simState (merge : L → α → L × Bool) (i0 : α → β) (i1 : L → β) (st0 : L) :
+    SimInv (stateC merge i0 i1)
+      (fun pu k pd su sd => aux_invState merge i0 i1 st0 pu k (pd 0) (pd 1) su (sd 0) (sd 1)) where
+  ready := by
+    intro pu k pd su sd es k1 b ⟨h1, h2, h3, h4, h5, h6, h7, h8⟩ he
+    simp only [stateC, emits_rdy, emits_ret] at he
+    obtain ⟨a, es', rfl, b', es'', rfl, rfl, hk⟩ := he
+    cases hk
+    refine aux_step2 (e0 := [.rdy a]) (e1 := [.rdy b']) (p0 := { pd 0 with ready := a }) (p1 := { pd 1 with ready := b' })
+      (by simp [port]) (by simp [port]) (fun j hj0 hj1 => by simp [port, Ne.symm hj0, Ne.symm hj1])
+      (by simp [PSt.run, PSt.step]) (by simp [PSt.run, PSt.step]) ?_
+    refine ⟨h1, h2, ?_, by simpa using h4, h5, h6, ?_, ?_⟩
+    · intro hb _; simp at hb ⊢; exact hb.1
+    · intro hs; simpa using h7 hs
+    · intro hs; simpa using h8 hs
+  send := by
+    intro pu k pd su sd es k1 x ⟨h1, h2, h3, h4, h5, h6, h7, h8⟩ hr hs he
+    have hsent : k.sent = false := by
+      cases h : k.sent
+      · rfl
+      · rw [(h8 h).2] at hs; cases hs
+    have hps : (pd 0).started = false := by
+      cases h : (pd 0).started
+      · rfl
+      · rw [h1 h] at hs; cases hs
+    have hpr := h3 hr hs
+    have hst : (merge k.st x).1 = stFinal merge st0 (su ++ [x]) := by
+      rw [h5]; simp [stFinal, List.foldl_append]
+    simp only [stateC] at he
+    cases hm : (merge k.st x).2 with
+    | true =>
+      simp only [hm, if_true, emits_snd, emits_ret] at he
+      obtain ⟨es', rfl, rfl, rfl⟩ := he
+      refine aux_step2 (e0 := [.snd (i0 x)]) (e1 := []) (p0 := { pd 0 with ready := false }) (p1 := pd 1)
+        (by simp [port]) (by simp [port]) (fun j hj0 hj1 => by simp [port, Ne.symm hj0])
+        (by simp [PSt.run, PSt.step, hpr, hps]) rfl ?_
+      refine ⟨h1, h2, by simp, ?_, hst, h6, ?_, ?_⟩
+      · rw [h5] at hm; simp [h4, aux_stChanged_snoc, hm]
+      · intro _; simpa using h7 hsent
+      · intro h; simp only at h; rw [hsent] at h; cases h
+    | false =>
+      simp only [hm, Bool.false_eq_true, if_false, emits_ret] at he
+      obtain ⟨rfl, rfl⟩ := he
+      refine aux_step2 (e0 := []) (e1 := []) (p0 := pd 0) (p1 := pd 1)
+        (by simp [port]) (by simp [port]) (fun j hj0 hj1 => by simp [port]) rfl rfl ?_
+      refine ⟨h1, h2, by simp, ?_, hst, h6, ?_, ?_⟩
+      · rw [h5] at hm; simp [h4, aux_stChanged_snoc, hm]
+      · intro _; simpa using h7 hsent
+      · intro h; simp only at h; rw [hsent] at h; cases h
+  fin := by
+    intro pu k pd su sd es k1 b ⟨h1, h2, h3, h4, h5, h6, h7, h8⟩ he
+    simp only [stateC] at he
+    cases hsent : k.sent with
+    | true =>
+      simp only [hsent, if_true, emits_fin, emits_ret] at he
+      obtain ⟨a, es', rfl, b', es'', rfl, rfl, hk⟩ := he
+      cases hk
+      refine aux_step2 (e0 := [.fin a]) (e1 := [.fin b']) (p0 := { pd 0 with started := true, closed := (pd 0).closed || a })
+        (p1 := { pd 1 with started := true, closed := (pd 1).closed || b' })
+        (by simp [port]) (by simp [port]) (fun j hj0 hj1 => by simp [port, Ne.symm hj0, Ne.symm hj1])
+        (by simp [PSt.run, PSt.step]) (by simp [PSt.run, PSt.step]) ?_
+      refine ⟨fun _ => rfl, ?_, by simp, by simpa using h4, h5, ?_, ?_, ?_⟩
+      · intro hc; simp at hc ⊢; rcases hc with hc | hc
+        · exact Or.inl (h2 hc)
+        · exact Or.inr hc.1
+      · intro hc; simp at hc ⊢; rcases hc with hc | hc
+        · exact Or.inl (h6 hc)
+        · exact Or.inr hc.2
+      · intro h; rw [hsent] at h; cases h
+      · intro _; exact ⟨by simpa using (h8 hsent).1, rfl⟩
+    | false =>
+      obtain ⟨hsd1, hp1⟩ := h7 hsent
+      simp only [hsent, Bool.false_eq_true, if_false, emits_rdy] at he
+      obtain ⟨r, es', rfl, he⟩ := he
+      cases r with
+      | false =>
+        simp only [Bool.false_eq_true, if_false, emits_ret] at he
+        obtain ⟨rfl, hk⟩ := he
+        cases hk
+        refine aux_step2 (e0 := []) (e1 := [.rdy false]) (p0 := pd 0) (p1 := { pd 1 with ready := false })
+          (by simp [port]) (by simp [port]) (fun j hj0 hj1 => by simp [port, Ne.symm hj1])
+          rfl (by simp [PSt.run, PSt.step]) ?_
+        refine ⟨fun h => by simp, by simpa using h2, by simp, by simpa using h4, h5, by simpa using h6, ?_, ?_⟩
+        · intro _; exact ⟨by simpa using hsd1, by simpa using hp1⟩
+        · intro h; rw [hsent] at h; cases h
+      | true =>
+        simp only [if_true, emits_snd, emits_fin, emits_ret] at he
+        obtain ⟨es'', rfl, a, es3, rfl, b', es4, rfl, rfl, hk⟩ := he
+        cases hk
+        refine aux_step2 (e0 := [.fin a]) (e1 := [.rdy true, .snd (i1 k.st), .fin b'])
+          (p0 := { pd 0 with started := true, closed := (pd 0).closed || a })
+          (p1 := { pd 1 with ready := false, started := true, closed := (pd 1).closed || b' })
+          (by simp [port]) (by simp [port]) (fun j hj0 hj1 => by simp [port, Ne.symm hj0, Ne.symm hj1])
+          (by simp [PSt.run, PSt.step]) (by simp [PSt.run, PSt.step, hp1]) ?_
+        refine ⟨fun _ => rfl, ?_, by simp, by simpa using h4, h5, ?_, ?_, ?_⟩
+        · intro hc; simp at hc ⊢; rcases hc with hc | hc
+          · exact Or.inl (h2 hc)
+          · exact Or.inr hc.1
+        · intro hc; simp at hc ⊢; rcases hc with hc | hc
+          · exact Or.inl (h6 hc)
+          · exact Or.inr hc.2
+        · intro h; simp at h
+        · intro _; exact ⟨by simp [hsd1], rfl⟩
+
+/-- `StatePush` (since the F122 fix): port 0 receives the items whose merge changed the state, in
+    order; port 1 receives the accumulated state exactly once, after a `ready? true`, before its
+    finalize — however often `poll_finalize` has to be polled. -/
+theorem statePush_sound (merge : L → α → L × Bool) (i0 : α → β) (i1 : L → β) (st0 : L) :
+    (stateC merge i0 i1).Sound ⟨st0, false⟩ [0, 1]
+      (fun j ins outs => outs = if j = 0 then (stChanged merge st0 ins).map i0 else [i1 (stFinal merge st0 ins)]) :=
+  (aux_simState merge i0 i1 st0).sound
+    ⟨by simp, by simp, by simp, rfl, rfl, by simp, fun _ => ⟨rfl, rfl⟩, by simp⟩
+    (fun pu k pd su sd h hwf hc j hj => by
+      obtain ⟨h1, h2, h3, h4, h5, h6, h7, h8⟩ := h
+      simp only [List.mem_cons, List.mem_nil_iff, or_false] at hj
+      rcases hj with rfl | rfl
+      · exact ⟨h2 hc, by simpa using h4⟩
+      · refine ⟨h6 hc, ?_⟩
+        cases hs : k.sent with
+        | true => simpa [h5] using (h8 hs).1
+        | false =>
+          have := hwf 1 (h6 hc)
+          rw [(h7 hs).2] at this; cases this)
+
 /-! ## The standard driver `SendPush::poll` (= `SendSink::poll` over `SinkCompat`) -/
 
 /-- For every push `K` over every downstream `N`, every pull script (items and `Pending`
